@@ -30,8 +30,9 @@ META = {
             'SHA/MD5/HMAC are oracles (not verified here).',
     'technique': 'Rocq/Coq proof over translator-regenerated model + vm_compute correspondence + independent references',
 }
-UNITS = ['C09_Poly1305', 'C09_ChaCha', 'C09_ChaChaPoly']
-MODEL_TARGETS = ['Gen/%s.vo' % u for u in UNITS] + ['Spec/C09_Poly1305.vo', 'Spec/C09_ChaCha.vo', 'Spec/C09_ChaChaPoly.vo']
+UNITS = ['C09_Poly1305', 'C09_ChaCha', 'C09_ChaChaPoly', 'C09_KDF']
+MODEL_TARGETS = ['Gen/%s.vo' % u for u in UNITS] + ['Spec/C09_Poly1305.vo', 'Spec/C09_ChaCha.vo', 'Spec/C09_ChaChaPoly.vo',
+                                                  'Spec/C09_KDF.vo', 'Spec/C09_KeyCalc.vo', 'Model/C09_KeyCalc.vo', 'Toy/C09_ToyOracle.vo']
 
 
 class State:
@@ -347,7 +348,345 @@ Definition chk_spec (c : CT) : bool :=
     S.sections.append(hs)
 
 
-SECTIONS = [sec_poly, sec_chacha, sec_chachapoly]
+# ============================================================================ KDFs
+ALG_DS = {'md5': 16, 'sha1': 20, 'sha256': 32, 'sha384': 48, 'sha512': 64}
+PURPOSES = {'master': b'master secret', 'ems': b'extended master secret', 'keyexp': b'key expansion',
+            'cfin': b'client finished', 'sfin': b'server finished'}
+KDF_PRE = """
+Definition OC := (list (list Z * list Z))%type.
+Definition orc (t : option OC) : Oracles := match t with Some tbl => table_oracles tbl | None => toy_oracles end.
+Definition rb := res_matches list_eqb.
+Definition pair_eqb (a b : list Z * list Z) := list_eqb (fst a) (fst b) && list_eqb (snd a) (snd b).
+Definition trip_eqb (a b : list Z * list Z * list Z) :=
+  list_eqb (fst (fst a)) (fst (fst b)) && list_eqb (snd (fst a)) (snd (fst b)) && list_eqb (snd a) (snd b).
+Definition st_eqb (a b : (list Z * list Z * list Z) * (list Z * list Z * list Z)) := trip_eqb (fst a) (fst b) && trip_eqb (snd a) (snd b).
+Definition st13_eqb (a b : (list Z * list Z) * (list Z * list Z)) := pair_eqb (fst a) (fst b) && pair_eqb (snd a) (snd b).
+Definition osome (o : option (list Z)) (v : list Z) := match o with Some x => list_eqb x v | None => false end.
+"""
+
+
+def slit(s):
+    return '"%s"%%string' % s
+
+
+def oblit(v):
+    return 'None' if v is None else '(Some %s)' % blit(v)
+
+
+class _Stub(object):
+    def __init__(self, kind, *args):
+        self.kind, self.args = kind, args
+        self.isBlockCipher, self.isAEAD, self.block_size = True, False, 16
+
+
+def sec_kdf(S, quick):
+    import c09_toys as toys
+    from tlslite.utils import cryptomath
+    from tlslite import mathtls
+    from tlslite.handshakehashes import HandshakeHashes
+    from tlslite.constants import CipherSuite
+    ctx, rng = S.ctx, S.ctx.rng
+    sec = Section('C09kdf', ['Base.C09_Oracle', 'Gen.C09_KDF', 'Model.C09_KeyCalc', 'Spec.C09_KDF', 'Spec.C09_KeyCalc',
+                             'Toy.ToyMac', 'Toy.C09_ToyOracle'], 'bool', KDF_PRE)
+    sec.fns = [('(fun b : bool => b)', 'model', 'kdf:model+coqspec-vs-impl')]
+
+    def both_modes(call, toy_ok=True):
+        """run the implementation with real (recorded) oracles and with toy oracles"""
+        out = []
+        table = {}
+        with toys.recording(table):
+            v, code = runf(call)
+        out.append(('real', v, code, table))
+        if toy_ok:
+            with toys.installed():
+                v2, code2 = runf(call)
+            out.append(('toy', v2, code2, None))
+        return out
+
+    def add(expr_fmt, mode, v, code, table, meta, spec_fmt=None, tbl_limit=20000 if quick else 60000):
+        o = 'None' if mode == 'toy' else '(Some %s)' % toys.table_lit(table)
+        if len(o) > tbl_limit:
+            return
+        lit = 'rb (%s) %s %d' % (expr_fmt.replace('@O', '(orc %s)' % o), oblit(v), code)
+        if spec_fmt and v is not None:
+            lit += ' && (%s)' % spec_fmt.replace('@O', '(orc %s)' % o).replace('@V', blit(v))
+        meta = dict(meta, mode=mode)
+        sec.add(lit, meta)
+
+    n_ossl = [0]
+
+    def ossl_ok(limit):
+        n_ossl[0] += 1
+        return n_ossl[0] <= limit
+    # ---- HKDF_expand: output lengths across several hash blocks and at the RFC maxima
+    algs = ['sha256', 'sha384'] + ([] if quick else ['sha1', 'sha512', 'md5'])
+    for alg in algs:
+        hl = ALG_DS[alg]
+        Ls = [0, 1, hl - 1, hl, hl + 1, 2 * hl, 3 * hl + 7, 254 * hl, 255 * hl, 255 * hl + 1]
+        if not quick or alg == 'sha256':
+            Ls += [254 * hl + 1, 255 * hl - 1]
+        if not quick:
+            Ls += [rng.randrange(0, 255 * hl) for _ in range(8)] + [5 * hl, 100 * hl + 3]
+        for L in Ls:
+            prk, info = rbytes(rng, rng.choice([hl, hl, 16, 0])), rbytes(rng, rng.choice([0, 10, 13 + hl]))
+            runs = both_modes(lambda: bytes(cryptomath.HKDF_expand(bytearray(prk), bytearray(info), L, alg)))
+            meta = {'unit': 'hkdf_expand', 'alg': alg, 'prk': prk.hex(), 'info': info.hex(), 'L': L}
+            nblk = (L + hl - 1) // hl
+            cls = 'N=255' if nblk == 255 else ('N>255' if nblk > 255 else 'N<255')
+            real = runs[0]
+            if L <= 255 * hl:
+                want = ref.hkdf_expand(prk, info, L, alg)
+                if real[1] != want:
+                    S.bad('hkdf_expand!=rfc5869:' + cls, 'HKDF_expand(PRK, info, L=%d, %s) %s but RFC 5869 defines the output for L <= 255*HashLen = %d'
+                          % (L, alg, 'raises (code %d)' % real[2] if real[1] is None else 'returns a different value', 255 * hl),
+                          dict(meta, impl=hexs(real[1]), code=real[2], rfc=want.hex()[:64] + '...'))
+                if L > 0 and ossl_ok(6 if quick else 40):
+                    o = ref.ossl_hkdf_expand(prk, info, L, alg)
+                    ctx.count('kdf:impl-vs-openssl', 1, [('hkdf', alg, cls)])
+                    if real[1] != o:
+                        S.bad('hkdf_expand!=openssl:' + cls, 'HKDF_expand differs from `openssl kdf HKDF` (EXPAND_ONLY)',
+                              dict(meta, impl=hexs(real[1]), code=real[2]))
+            ctx.count('kdf:impl-vs-rfc-python', 1, [('hkdf', alg, cls, min(nblk, 4))])
+            for mode, v, code, table in runs:
+                add('HKDF_expand @O %s %s %d %s' % (blit(prk), blit(info), L, slit(alg)), mode, v, code, table, meta,
+                    'osome (hkdf_expand_rfc @O %s %s %s %d) @V' % (slit(alg), blit(prk), blit(info), L))
+    # ---- HKDF_expand_label / derive_secret (RFC 8446 7.1); the exporter passes a caller-chosen length
+    for alg in ['sha256', 'sha384']:
+        hl = ALG_DS[alg]
+        for length in [12, 16, 32, hl, 2 * hl + 1, 255 * hl, 0] + ([] if quick else [1, 100, 254 * hl, 65535, 65536]):
+            secret, label, ctxv = rbytes(rng, hl), rng.choice([b'key', b'iv', b'exporter', b'finished', b'c hs traffic', b'x' * 249, b'x' * 250]), \
+                rbytes(rng, rng.choice([0, hl, 255, 256]) if rng.random() < 0.3 else rng.choice([0, hl]))
+            runs = both_modes(lambda: bytes(cryptomath.HKDF_expand_label(bytearray(secret), bytearray(label), bytearray(ctxv), length, alg)))
+            meta = {'unit': 'hkdf_expand_label', 'alg': alg, 'secret': secret.hex(), 'label': label.hex(), 'context': ctxv.hex(), 'L': length}
+            real = runs[0]
+            nblk = (length + hl - 1) // hl
+            cls = 'N=255' if nblk == 255 else ('N>255' if nblk > 255 else 'N<255')
+            if length <= 255 * hl and length <= 65535 and len(label) + 6 <= 255 and len(ctxv) <= 255:
+                want = ref.hkdf_expand_label(secret, label, ctxv, length, alg)
+                if real[1] != want:
+                    S.bad('hkdf_expand_label!=rfc8446:' + cls, 'HKDF_expand_label(length=%d, %s) %s; RFC 8446 7.1 + RFC 5869 define it'
+                          % (length, alg, 'raises (code %d)' % real[2] if real[1] is None else 'returns a different value'),
+                          dict(meta, impl=hexs(real[1]), code=real[2]))
+            ctx.count('kdf:impl-vs-rfc-python', 1, [('hkdf_label', alg, cls, len(label) > 249, len(ctxv) > 255)])
+            for mode, v, code, table in runs:
+                add('HKDF_expand_label @O %s %s %s %d %s' % (blit(secret), blit(label), blit(ctxv), length, slit(alg)), mode, v, code, table, meta,
+                    'osome (hkdf_expand_label_rfc @O %s %s %s %s %d) @V' % (slit(alg), blit(secret), blit(label), blit(ctxv), length))
+        for tr in [None, b'', rbytes(rng, 50)]:
+            secret, label = rbytes(rng, hl), rng.choice([b'derived', b'c ap traffic', b'res master'])
+
+            def call():
+                hh = None
+                if tr is not None:
+                    hh = HandshakeHashes()
+                    hh.update(bytearray(tr))
+                return bytes(cryptomath.derive_secret(bytearray(secret), bytearray(label), hh, alg))
+            table = {}
+            with toys.recording(table):
+                v, code = runf(call)
+            table[('hash', alg, tr or b'')] = __import__('hashlib').new(alg, tr or b'').digest()
+            want = ref.derive_secret(secret, label, tr or b'', alg)
+            meta = {'unit': 'derive_secret', 'alg': alg, 'secret': secret.hex(), 'label': label.hex(), 'transcript': hexs(tr)}
+            if v != want:
+                S.bad('derive_secret!=rfc8446', 'derive_secret differs from RFC 8446 7.1 Derive-Secret', dict(meta, impl=hexs(v), code=code))
+            ctx.count('kdf:impl-vs-rfc-python', 1, [('derive_secret', alg, tr is None)])
+            add('derive_secret @O %s %s %s %s' % (blit(secret), blit(label), oblit(tr), slit(alg)), 'real', v, code, table, meta,
+                'osome (derive_secret_rfc @O %s %s %s %s) @V' % (slit(alg), blit(secret), blit(label), blit(tr or b'')))
+    # ---- P_hash and the PRFs
+    for alg in ['md5', 'sha1', 'sha256', 'sha384']:
+        ds = ALG_DS[alg]
+        for n in [0, 1, ds - 1, ds, ds + 1, 2 * ds, 5 * ds + 3, 136] + ([] if quick else [12, 48, 3 * ds, 1000]):
+            secret, seed = rbytes(rng, rng.choice([0, 1, 24, 48, 64, 65, 200])), rbytes(rng, rng.choice([0, 13, 77]))
+            runs = both_modes(lambda: bytes(mathtls.P_hash(alg, bytearray(secret), bytearray(seed), n)))
+            meta = {'unit': 'p_hash', 'alg': alg, 'secret': secret.hex(), 'seed': seed.hex(), 'n': n}
+            want = ref.p_hash(alg, secret, seed, n)
+            if runs[0][1] != want:
+                S.bad('p_hash!=rfc5246', 'P_hash differs from RFC 5246 section 5', dict(meta, impl=hexs(runs[0][1]), code=runs[0][2]))
+            ctx.count('kdf:impl-vs-rfc-python', 1, [('p_hash', alg, n % ds == 0, min(n // ds, 5))])
+            for mode, v, code, table in runs:
+                add('P_hash @O %s %s %s %d' % (slit(alg), blit(secret), blit(seed), n), mode, v, code, table, meta,
+                    'list_eqb (p_hash_rfc @O %s %d %s %s %d) @V' % (slit(alg), ds, blit(secret), blit(seed), n))
+    for n in [0, 12, 48, 104, 136] + ([] if quick else [1, 15, 16, 17, 19, 20, 21, 500]):
+        for sl in [0, 1, 2, 47, 48, 49]:
+            secret, label, seed = rbytes(rng, sl), rng.choice(list(PURPOSES.values())), rbytes(rng, rng.choice([0, 36, 64]))
+            for fn, alg in (('PRF', 'md5sha1'), ('PRF_1_2', 'sha256'), ('PRF_1_2_SHA384', 'sha384')):
+                if fn != 'PRF' and sl not in (0, 48, 49):
+                    continue
+                f = getattr(mathtls, fn)
+                runs = both_modes(lambda: bytes(f(bytearray(secret), bytearray(label), bytearray(seed), n)))
+                meta = {'unit': fn, 'secret': secret.hex(), 'label': label.hex(), 'seed': seed.hex(), 'n': n}
+                want = ref.prf_tls10(secret, label, seed, n) if fn == 'PRF' else ref.prf_tls12(alg, secret, label, seed, n)
+                if runs[0][1] != want:
+                    S.bad('%s!=rfc:secretlen%%2=%d' % (fn, sl % 2), '%s differs from the RFC 2246/5246 PRF' % fn,
+                          dict(meta, impl=hexs(runs[0][1]), code=runs[0][2], rfc=want.hex()))
+                if n > 0 and sl > 0 and ossl_ok(16 if quick else 80):
+                    o = ref.ossl_tls1_prf(alg, secret, label + seed, n)
+                    ctx.count('kdf:impl-vs-openssl', 1, [(fn, sl % 2)])
+                    if runs[0][1] != o:
+                        S.bad('%s!=openssl' % fn, '%s differs from `openssl kdf TLS1-PRF`' % fn, dict(meta, impl=hexs(runs[0][1])))
+                ctx.count('kdf:impl-vs-rfc-python', 1, [(fn, sl % 2, sl == 0, min(n // 16, 8))])
+                spec = {'PRF': 'prf10_rfc @O', 'PRF_1_2': 'prf12_rfc @O "sha256"%string 32', 'PRF_1_2_SHA384': 'prf12_rfc @O "sha384"%string 48'}[fn]
+                for mode, v, code, table in runs:
+                    add('%s @O %s %s %s %d' % (fn, blit(secret), blit(label), blit(seed), n), mode, v, code, table, meta,
+                        'list_eqb (%s %s %s %s %d) @V' % (spec, blit(secret), blit(label), blit(seed), n))
+    for n in [0, 1, 16, 17, 48, 136, 415, 416, 417, 450]:
+        secret, seed = rbytes(rng, rng.choice([0, 48])), rbytes(rng, 64)
+        runs = both_modes(lambda: bytes(mathtls.PRF_SSL(bytearray(secret), bytearray(seed), n)))
+        meta = {'unit': 'PRF_SSL', 'secret': secret.hex(), 'seed': seed.hex(), 'n': n}
+        if n <= 416:
+            want = ref.prf_ssl3(secret, seed, n)
+            if runs[0][1] != want:
+                S.bad('PRF_SSL!=rfc6101', 'PRF_SSL differs from the SSLv3 key block construction (RFC 6101 6.2.2)',
+                      dict(meta, impl=hexs(runs[0][1]), code=runs[0][2]))
+        ctx.count('kdf:impl-vs-rfc-python', 1, [('PRF_SSL', n % 16 == 0, min(n // 16, 27))])
+        for mode, v, code, table in runs:
+            add('PRF_SSL @O %s %s %d' % (blit(secret), blit(seed), n), mode, v, code, table, meta,
+                ('list_eqb (prf_ssl_rfc @O %s %s %d) @V' % (blit(secret), blit(seed), n)) if n <= 416 else None)
+    # ---- calc_key: every version x PRF hash x label
+    s384 = sorted(CipherSuite.sha384PrfSuites)[0]
+    s256 = sorted(set(CipherSuite.aes128Suites) - set(CipherSuite.sha384PrfSuites))[0]
+    for ver in [(3, 0), (3, 1), (3, 2), (3, 3), (3, 4)]:
+        for suite, prf_alg in ((s256, 'sha256'), (s384, 'sha384')):
+            for purpose, label in list(PURPOSES.items()) + [('bad', b'no such label')]:
+                secret = rbytes(rng, rng.choice([48, 47, 32]))
+                tr, cr, sr = rbytes(rng, rng.choice([0, 100])), rbytes(rng, 32), rbytes(rng, 32)
+                n = {'master': 48, 'ems': 48, 'keyexp': rng.choice([40, 72, 104, 136]), 'cfin': 12, 'sfin': 12, 'bad': 12}[purpose]
+                use_hh = purpose in ('ems', 'cfin', 'sfin') or rng.random() < 0.2
+                use_rnd = purpose in ('master', 'keyexp') or rng.random() < 0.2
+
+                def call():
+                    hh = None
+                    if use_hh:
+                        hh = HandshakeHashes()
+                        hh.update(bytearray(tr))
+                    return bytes(mathtls.calc_key(ver, bytearray(secret), suite, label, handshake_hashes=hh,
+                                                  client_random=bytearray(cr) if use_rnd else None,
+                                                  server_random=bytearray(sr) if use_rnd else None, output_length=n))
+                table = {}
+                with toys.recording(table):
+                    v, code = runf(call)
+                import hashlib as _h
+                for a in ('md5', 'sha1', 'sha256', 'sha384'):
+                    table[('hash', a, tr)] = _h.new(a, tr).digest()
+                for snd in (b'CLNT', b'SRVR'):
+                    table[('hash', 'md5', tr + snd + secret + b'\x36' * 48)] = _h.md5(tr + snd + secret + b'\x36' * 48).digest()
+                    table[('hash', 'sha1', tr + snd + secret + b'\x36' * 40)] = _h.sha1(tr + snd + secret + b'\x36' * 40).digest()
+                meta = {'unit': 'calc_key', 'version': list(ver), 'suite': suite, 'prf': prf_alg, 'purpose': purpose, 'secret': secret.hex(),
+                        'transcript': tr.hex() if use_hh else None, 'cr': cr.hex() if use_rnd else None, 'sr': sr.hex() if use_rnd else None, 'n': n}
+                valid = ver != (3, 4) and purpose != 'bad' and not (ver == (3, 0) and purpose == 'ems')
+                if valid:
+                    want = ref.calc_key_ref(ver, secret, prf_alg, purpose, tr, cr, sr, n)
+                    if v != want:
+                        S.bad('calc_key!=rfc:%d.%d:%s:%s' % (ver[0], ver[1], prf_alg if ver == (3, 3) else '-', purpose),
+                              'calc_key differs from the RFC definition', dict(meta, impl=hexs(v), code=code, rfc=want.hex()))
+                elif v is not None:
+                    S.bad('calc_key:accepts-invalid:%s' % purpose, 'calc_key returned a value for an undefined version/label combination', dict(meta, impl=hexs(v)))
+                ctx.count('kdf:impl-vs-rfc-python', 1, [('calc_key', ver, prf_alg if ver == (3, 3) else '-', purpose)])
+                args = '(%d,%d) %s %s %s %s %s %s (Some %d)' % (ver[0], ver[1], blit(secret), 'true' if prf_alg == 'sha384' else 'false', blit(label),
+                                                               oblit(tr if use_hh else None), oblit(cr if use_rnd else None), oblit(sr if use_rnd else None), n)
+                spec = None
+                if valid:
+                    P = {'master': 'MasterSecret', 'ems': 'ExtMasterSecret', 'keyexp': 'KeyExpansion', 'cfin': 'ClientFinished', 'sfin': 'ServerFinished'}[purpose]
+                    spec = 'list_eqb (calc_key_rfc @O (%d,%d) %s %s %s %s %s %s %d) @V' % (
+                        ver[0], ver[1], 'true' if prf_alg == 'sha384' else 'false', P, blit(secret), blit(tr), blit(cr), blit(sr), n)
+                add('calc_key @O ' + args, 'real', v, code, table, meta, spec)
+    # ---- key block slicing and TLS 1.3 traffic keys as handed to the cipher/MAC constructors
+    import tlslite.recordlayer as RLmod
+    from tlslite.recordlayer import RecordLayer
+    names = ['createAES', 'createAESGCM', 'createAESCCM', 'createAESCCM_8', 'createCHACHA20', 'createRC4', 'createTripleDES',
+             'createHMAC', 'createMAC_SSL']
+    saved = {nm: getattr(RLmod, nm) for nm in names}
+    for nm in names:
+        setattr(RLmod, nm, (lambda kind: (lambda *a, **kw: _Stub(kind, *a)))(nm))
+    try:
+        groups = [('aes128Suites', 'sha'), ('aes256Suites', 'sha256'), ('aes128GcmSuites', None), ('aes256GcmSuites', None),
+                  ('chacha20Suites', None), ('tripleDESSuites', 'sha'), ('rc4Suites', 'md5'), ('aes128CcmSuites', None), ('nullSuites', 'sha')]
+        for gname, _ in groups:
+            suites = sorted(getattr(CipherSuite, gname))
+            for ver in [(3, 0), (3, 1), (3, 2), (3, 3)]:
+                if (gname.endswith('GcmSuites') or 'chacha' in gname or 'Ccm' in gname) and ver != (3, 3):
+                    continue
+                for client in (True, False):
+                    suite = rng.choice(suites)
+                    ms, cr, sr = rbytes(rng, 48), rbytes(rng, 32), rbytes(rng, 32)
+                    rl = RecordLayer(None)
+                    rl.client, rl.version = client, ver
+                    table = {}
+                    with toys.recording(table):
+                        _, code = runf(rl.calcPendingStates, suite, bytearray(ms), bytearray(cr), bytearray(sr), ['python'])
+                    kl, il, _f = RecordLayer._getCipherSettings(suite)
+                    ml, dm = RecordLayer._getMacSettings(suite)
+                    meta = {'unit': 'calcPendingStates', 'suite': suite, 'group': gname, 'version': list(ver), 'client': client,
+                            'ms': ms.hex(), 'cr': cr.hex(), 'sr': sr.hex()}
+                    if code:
+                        S.bad('calcPendingStates:raises', 'calcPendingStates raised (code %d)' % code, meta)
+                        continue
+
+                    def obs(st):
+                        mac = bytes(st.macContext.args[0]) if st.macContext is not None else b''
+                        if st.encContext is None:
+                            return mac, b'', b''
+                        a = st.encContext.args
+                        if dm:
+                            return mac, bytes(a[0]), bytes(a[1])
+                        return mac, bytes(a[0]), bytes(st.fixedNonce)
+                    w, r = obs(rl._pendingWriteState), obs(rl._pendingReadState)
+                    prf = 'sha384' if suite in CipherSuite.sha384PrfSuites else 'sha256'
+                    kb = ref.calc_key_ref(ver, ms, prf, 'keyexp', None, cr, sr, 2 * ml + 2 * kl + 2 * il)
+                    parts, o = [], 0
+                    for ln in (ml, ml, kl, kl, il, il):
+                        parts.append(kb[o:o + ln])
+                        o += ln
+                    cst, sst = (parts[0], parts[2], parts[4]), (parts[1], parts[3], parts[5])
+                    want = (cst, sst) if client else (sst, cst)
+                    if kl == 0:
+                        want = tuple((m, b'', b'') for m, _k, _i in want)
+                    if (w, r) != want:
+                        S.bad('key_block_slicing:%s' % gname, 'calcPendingStates does not hand the RFC 5246 6.3 key-block slices to the '
+                              'cipher/MAC constructors in the order client MAC, server MAC, client key, server key, client IV, server IV',
+                              dict(meta, write=[x.hex() for x in w], read=[x.hex() for x in r]))
+                    ctx.count('kdf:impl-vs-rfc-python', 1, [('slicing', gname, ver, client)])
+                    trip = lambda t: '(%s, %s, %s)' % (blit(t[0]), blit(t[1]), blit(t[2]))   # noqa: E731
+                    if kl > 0:
+                        o_ = '(Some %s)' % toys.table_lit(table)
+                        sec.add('res_matches st_eqb (calc_pending_states (orc %s) (%d,%d) %s %s %s %s %s %d %d %d) (Some (%s, %s)) 0' % (
+                            o_, ver[0], ver[1], 'true' if prf == 'sha384' else 'false', 'true' if client else 'false',
+                            blit(ms), blit(cr), blit(sr), ml, kl, il, trip(w), trip(r)), dict(meta, mode='real'))
+        for gname in ('aes128GcmSuites', 'aes256GcmSuites', 'chacha20Suites', 'aes128CcmSuites', 'aes128Ccm_8Suites'):
+            tls13 = [s_ for s_ in getattr(CipherSuite, gname) if s_ in CipherSuite.tls13Suites]
+            if not tls13:
+                continue
+            for client in (True, False):
+                suite = rng.choice(sorted(tls13))
+                prf = 'sha384' if suite in CipherSuite.sha384PrfSuites else 'sha256'
+                cs_, ss_ = rbytes(rng, ALG_DS[prf]), rbytes(rng, ALG_DS[prf])
+                rl = RecordLayer(None)
+                rl.client, rl.version = client, (3, 4)
+                table = {}
+                with toys.recording(table):
+                    _, code = runf(rl.calcTLS1_3PendingState, suite, bytearray(cs_), bytearray(ss_), ['python'])
+                meta = {'unit': 'calcTLS1_3PendingState', 'suite': suite, 'client': client, 'cl': cs_.hex(), 'sr': ss_.hex()}
+                if code:
+                    S.bad('calcTLS1_3PendingState:raises', 'calcTLS1_3PendingState raised', meta)
+                    continue
+                kl = RecordLayer._getCipherSettings(suite)[0]
+                w = (bytes(rl._pendingWriteState.encContext.args[0]), bytes(rl._pendingWriteState.fixedNonce))
+                r = (bytes(rl._pendingReadState.encContext.args[0]), bytes(rl._pendingReadState.fixedNonce))
+                ck = (ref.hkdf_expand_label(cs_, b'key', b'', kl, prf), ref.hkdf_expand_label(cs_, b'iv', b'', 12, prf))
+                sk = (ref.hkdf_expand_label(ss_, b'key', b'', kl, prf), ref.hkdf_expand_label(ss_, b'iv', b'', 12, prf))
+                if (w, r) != ((ck, sk) if client else (sk, ck)):
+                    S.bad('tls13_traffic_keys:%s' % gname, 'calcTLS1_3PendingState keys/IVs differ from RFC 8446 7.3', meta)
+                ctx.count('kdf:impl-vs-rfc-python', 1, [('tls13keys', gname, client)])
+                pr = lambda t: '(%s, %s)' % (blit(t[0]), blit(t[1]))   # noqa: E731
+                sec.add('res_matches st13_eqb (tls13_pending_state (orc (Some %s)) %s %s %s %s %d) (Some (%s, %s)) 0' % (
+                    toys.table_lit(table), 'true' if client else 'false', 'true' if prf == 'sha384' else 'false', blit(cs_), blit(ss_), kl, pr(w), pr(r)),
+                    dict(meta, mode='real'))
+    finally:
+        for nm in names:
+            setattr(RLmod, nm, saved[nm])
+    S.sections.append(sec)
+
+
+SECTIONS = [sec_poly, sec_chacha, sec_chachapoly, sec_kdf]
 
 
 # ============================================================================ driver
@@ -385,7 +724,7 @@ def run(ctx):
     ctx.log('implementation vs references: %d evaluations' % ctx.cov['evaluations'])
     # ---- generated model and Coq spec on the same cases
     if res['model_ok'] and not any('refused' in (S.tie_broken or '') for _ in [0]):
-        allres = evaluate_all(S.sections, lambda sec: max(6, (len(sec.lits) + 7) // 8) if quick else 40)
+        allres = evaluate_all(S.sections, lambda sec: max(6, (len(sec.lits) + 15) // 16) if quick else 40)
         for sec, (bads, errs) in zip(S.sections, allres):
             for (fn, kind, stream), bad in zip(sec.fns, bads):
                 ctx.count(stream, len(sec.lits), [(sec.tag, 'ok', len(sec.lits) - len(bad))])
